@@ -1299,6 +1299,8 @@ class Interp:
             return w.list_repeat(self, lst, k)
         if isinstance(op, ast.MatMult):
             return w.call_method(self, a, 'tensor', [b], {})
+        if isinstance(op, (ast.RShift, ast.LShift)) and isinstance(a, VTy) and isinstance(b, VTy):
+            return w.ty_slash(self, a, b, 'under' if isinstance(op, ast.RShift) else 'over')
         if isinstance(op, ast.RShift):
             return w.call_method(self, a, 'then', [b], {})
         if isinstance(op, ast.LShift):
